@@ -4,6 +4,7 @@ package main
 // verification driver.
 
 import (
+	"go/token"
 	"fmt"
 	"go/constant"
 	"go/types"
@@ -91,7 +92,15 @@ func (ex *Exec) contractFor(fn *ssa.Function) *FuncContract {
 		}
 		return nil
 	}
-	return ex.v.cs.Funcs[fn.Pkg.Pkg.Path()+"::"+relName(fn)]
+	if fc := ex.v.cs.Funcs[fn.Pkg.Pkg.Path()+"::"+relName(fn)]; fc != nil {
+		return fc
+	}
+	// renamed since the reference tree: the contract is filed under the old name
+	o := outermost(fn)
+	if old, ok := renamedFrom[o]; ok {
+		return ex.v.cs.Funcs[fn.Pkg.Pkg.Path()+"::"+old+strings.TrimPrefix(fn.RelString(fn.Pkg.Pkg), o.RelString(o.Pkg.Pkg))]
+	}
+	return nil
 }
 
 func relName(fn *ssa.Function) string {
@@ -348,6 +357,12 @@ func (ex *Exec) effectOfBody(fn *ssa.Function, seen map[*ssa.Function]bool) effe
 				if _, local := in.Addr.(*ssa.Alloc); local {
 					continue
 				}
+				if al := rootAlloc(in.Addr); al != nil {
+					// cell of an object allocated during the call (e.g. the
+					// array of variadic arguments): as for objects allocated
+					// inside a loop iteration in the function itself
+					continue
+				}
 				e.types = append(e.types, in.Addr.Type().Underlying().(*types.Pointer).Elem())
 			case *ssa.MapUpdate:
 				mt := in.Map.Type().Underlying().(*types.Map)
@@ -400,30 +415,30 @@ func (ex *Exec) call(in *ssa.Call, cc *ssa.CallCommon, r Term) {
 			ex.c.trusted[ca.Trust+": assumed after the call to "+ca.Callee+" in "+ex.fname+": "+ca.C.Text] = true
 		}
 		ex.pendingAssume = nil
-		if ex == ex.top && ex.fc != nil && len(ex.fc.CallNames) > 0 {
-			for _, cn := range ex.fc.CallNames {
+		if pf := ex.patternFrame(); pf != nil && pf.fc != nil && len(pf.fc.CallNames) > 0 {
+			for _, cn := range pf.fc.CallNames {
 				if !calleeMatches(cc, cn.Callee) {
 					continue
 				}
 				key := "callname:" + cn.Callee
-				n := ex.count[key]
-				if n == cn.Ordinal && !ex.callSeen[cn.Name] {
-					ex.callSeen[cn.Name] = true
+				n := pf.count[key]
+				if n == cn.Ordinal && !pf.callSeen[cn.Name] {
+					pf.callSeen[cn.Name] = true
 					if v.K == KTuple {
 						for i, f := range v.Fields {
-							ex.named[fmt.Sprintf("%s%d", cn.Name, i)] = f
+							pf.named[fmt.Sprintf("%s%d", cn.Name, i)] = f
 						}
 					} else {
-						ex.named[cn.Name] = v
+						pf.named[cn.Name] = v
 					}
-					ex.named[cn.Name+"_reached"] = boolVal(r)
+					pf.named[cn.Name+"_reached"] = boolVal(r)
 				}
 			}
 			seenC := map[string]bool{}
-			for _, cn := range ex.fc.CallNames {
+			for _, cn := range pf.fc.CallNames {
 				if calleeMatches(cc, cn.Callee) && !seenC[cn.Callee] {
 					seenC[cn.Callee] = true
-					ex.count["callname:"+cn.Callee]++
+					pf.count["callname:"+cn.Callee]++
 				}
 			}
 		}
@@ -450,21 +465,28 @@ func (ex *Exec) call(in *ssa.Call, cc *ssa.CallCommon, r Term) {
 		pos = in.Pos()
 	}
 	ex.bumpGhosts(calleeName(cc))
-	if ex == ex.top && ex.fc != nil && len(ex.fc.CallAsserts) > 0 {
+	if pf := ex.patternFrame(); pf != nil && pf.fc != nil && len(pf.fc.CallAsserts) > 0 {
 		seenA := map[string]bool{}
-		for ci, ca := range ex.fc.CallAsserts {
+		for ci, ca := range pf.fc.CallAsserts {
 			if !calleeMatches(cc, ca.Callee) {
 				continue
 			}
 			key := "callassert:" + ca.Callee
-			if ex.count[key] == ca.Ordinal && ca.Assume {
+			if pf.count[key] == ca.Ordinal && ca.Assume && pf == ex {
 				ca := ca
 				ex.pendingAssume = append(ex.pendingAssume, &ca)
 				ex.assertSeen[fmt.Sprintf("%d %s", ca.Ordinal, ca.Callee)] = true
-			} else if ex.count[key] == ca.Ordinal {
-				env := ex.baseEnv(ex.cur)
-				ex.bindDominating(env, in)
-				for k, nv := range ex.named {
+			} else if pf.count[key] == ca.Ordinal && !ca.Assume {
+				// inside a helper that was inlined into the function under
+				// contract, the clause sees that function's names as they are at
+				// the call of the helper (and the memory as it is now)
+				env := pf.baseEnv(ex.cur)
+				if pf == ex {
+					ex.bindDominating(env, in)
+				} else {
+					pf.bindDominating(env, ex.siteTop)
+				}
+				for k, nv := range pf.named {
 					if _, clash := env.vars[k]; !clash {
 						env.vars[k] = nv
 					}
@@ -488,16 +510,16 @@ func (ex *Exec) call(in *ssa.Call, cc *ssa.CallCommon, r Term) {
 				if lbl == "" {
 					lbl = fmt.Sprintf("c%d", ci)
 				}
-				ex.addObl("assert", lbl, r, t, pos, txt, false)
+				pf.addOblTop("assert", lbl, r, t, pos, txt)
 				if at, err := env.Bool(ca.C.E); err == nil {
 					ex.c.assume(imp(r, at))
 				}
-				ex.assertSeen[fmt.Sprintf("%d %s", ca.Ordinal, ca.Callee)] = true
+				pf.assertSeen[fmt.Sprintf("%d %s", ca.Ordinal, ca.Callee)] = true
 			}
 			seenA[ca.Callee] = true
 		}
 		for k := range seenA {
-			ex.count["callassert:"+k]++
+			pf.count["callassert:"+k]++
 		}
 	}
 
@@ -534,6 +556,7 @@ func (ex *Exec) call(in *ssa.Call, cc *ssa.CallCommon, r Term) {
 				return
 			}
 			if ex.depth < 3 {
+				ex.inlineSite = in
 				setRes(ex.inline(cfn, args, mc.Bindings, r, resType()))
 				return
 			}
@@ -577,6 +600,7 @@ func (ex *Exec) call(in *ssa.Call, cc *ssa.CallCommon, r Term) {
 		if mc, ok := cc.Value.(*ssa.MakeClosure); ok {
 			bindings = mc.Bindings
 		}
+		ex.inlineSite = in
 		setRes(ex.inline(fn, args, bindings, r, resType()))
 		return
 	}
@@ -591,6 +615,12 @@ func (ex *Exec) inline(fn *ssa.Function, args []Val, bindings []ssa.Value, r Ter
 		vals: map[ssa.Value]Val{}, obls: ex.obls, depth: ex.depth + 1, stack: append(append([]string{}, ex.stack...), fn.String()),
 		top: ex.top, decAtHeader: map[*ssa.BasicBlock]Val{}, headerEnv: map[*ssa.BasicBlock]*Env{}, autoRange: map[*ssa.BasicBlock]*rangeInv{}, debugBound: map[*Env]map[string]bool{}, paramNames: map[string]bool{}, entryEnv: nil}
 	sub.fc = ex.contractFor(fn) // may carry loop invariants for an inlined function
+	sub.parent = ex
+	if ex == ex.top {
+		sub.siteTop = ex.inlineSite
+	} else {
+		sub.siteTop = ex.siteTop
+	}
 	for i, p := range fn.Params {
 		a := args[i]
 		a.Typ = p.Type()
@@ -1319,4 +1349,30 @@ func (ex *Exec) sprintfModel(cc *ssa.CallCommon, r Term) (Val, bool) {
 	}
 	c.trusted["A-STD-FMT: fmt.Sprintf with a constant format is modelled on content keys (%s of a string is the string, %s of an OID its hex form)"] = true
 	return res, true
+}
+
+// patternFrame: the frame whose contract's call patterns (`call K f as x`,
+// `call K f assert e`, ghost counters) see the calls made here: the function
+// under contract itself, or -- inside helpers without a contract of their own
+// that were inlined into it -- that function. nil inside a callee that has its
+// own contract (its calls are its own business).
+func (ex *Exec) patternFrame() *Exec {
+	if ex == ex.top {
+		return ex
+	}
+	for f := ex; f != nil && f != ex.top; f = f.parent {
+		if f.fc != nil || f.parent == nil {
+			return nil
+		}
+	}
+	if ex.siteTop == nil {
+		return nil
+	}
+	return ex.top
+}
+
+// addOblTop adds an obligation named after the top function (used for clauses
+// of its contract that are met inside an inlined helper).
+func (ex *Exec) addOblTop(kind, label string, guard, goal Term, pos token.Pos, text string) *Obligation {
+	return ex.top.addObl(kind, label, guard, goal, pos, text, false)
 }
